@@ -703,9 +703,10 @@ macro_rules! expand_with_label_harness {
         #[kani::unwind(82)]
         fn $name() {
             let secret = any_bytes::<4>();
-            let l: [u8; $ll] = kani::any();
+            // (prefix of a real array: a zero-length array would be a dangling pointer)
+            let l: [u8; 4] = kani::any();
             let c: [u8; 4] = kani::any();
-            for_each_prefix(&c, |context| expand_with_label_case(&secret, &l, context));
+            for_each_prefix(&c, |context| expand_with_label_case(&secret, &l[..$ll], context));
         }
     )* };
 }
@@ -879,10 +880,10 @@ macro_rules! group_context_encoding_harness {
         #[kani::proof]
         #[kani::unwind(82)]
         fn $name() {
-            let g: [u8; $gl] = kani::any();
+            let g: [u8; 2] = kani::any();
             let t: [u8; 1] = kani::any();
             let h: [u8; 1] = kani::any();
-            for_each_prefix(&t, |th| for_each_prefix(&h, |cth| group_context_case(&g, th, cth)));
+            for_each_prefix(&t, |th| for_each_prefix(&h, |cth| group_context_case(&g[..$gl], th, cth)));
         }
     )* };
 }
@@ -1141,9 +1142,9 @@ macro_rules! export_secret_harness {
         #[kani::stub(zeroize::optimization_barrier, noop_barrier)]
         #[kani::unwind(82)]
         fn $name() {
-            let label: [u8; $ll] = kani::any();
+            let label: [u8; 4] = kani::any();
             let c: [u8; 2] = kani::any();
-            for_each_prefix(&c, |context| export_secret_case(&label, context));
+            for_each_prefix(&c, |context| export_secret_case(&label[..$ll], context));
         }
     )* };
 }
